@@ -42,6 +42,26 @@ def to_py(v):
     return ("other", type(v).__name__)
 
 
+def tagged(p):
+    """the same structure with booleans made distinguishable from ints: in Python True == 1 and
+    hash(True) == hash(1), also inside tuples and frozensets, so a plain comparison of to_py() values
+    cannot tell TRUE from 1 (or FALSE from 0)"""
+    if isinstance(p, bool):
+        return ("bool", "T" if p else "F")
+    if isinstance(p, tuple):
+        return tuple(tagged(x) for x in p)
+    if isinstance(p, frozenset):
+        return frozenset(tagged(x) for x in p)
+    if isinstance(p, list):
+        return [tagged(x) for x in p]
+    return p
+
+
+def strict_eq(a, b):
+    """equality of to_py() abstractions that keeps booleans and ints apart"""
+    return tagged(a) == tagged(b)
+
+
 class _Watchdog(Exception):
     pass
 
